@@ -177,17 +177,26 @@ class Type1Tag(Tag):
                     offset += 1
                     continue
 
-                tlv_t, tlv_l, tlv_v = read_tlv(tag_memory, offset, skip_bytes)
+                try:
+                    tlv_t, tlv_l, tlv_v = read_tlv(tag_memory, offset, skip_bytes)
+                except Type1TagCommandError:
+                    return None
                 log.debug("tlv type {0} at address {1}".format(tlv_t, offset))
 
                 if tlv_t == 0x00:
                     pass
                 elif tlv_t == 0x01:
-                    lock_bytes = get_lock_byte_range(tlv_v)
-                    skip_bytes.update(range(*lock_bytes.indices(0x800)))
+                    if tlv_l == 3:
+                        lock_bytes = get_lock_byte_range(tlv_v)
+                        skip_bytes.update(range(*lock_bytes.indices(0x800)))
+                    else:
+                        log.debug("lock tlv has wrong length")
                 elif tlv_t == 0x02:
-                    rsvd_bytes = get_rsvd_byte_range(tlv_v)
-                    skip_bytes.update(range(*rsvd_bytes.indices(0x800)))
+                    if tlv_l == 3:
+                        rsvd_bytes = get_rsvd_byte_range(tlv_v)
+                        skip_bytes.update(range(*rsvd_bytes.indices(0x800)))
+                    else:
+                        log.debug("memory tlv has wrong length")
                 elif tlv_t == 0x03:
                     ndef = tlv_v
                     break
@@ -528,14 +537,22 @@ class Type1TagMemoryReader(object):
         raise TypeError(msg.format(cls=self.__class__.__name__))
 
     def _read_from_tag(self, stop):
+        if stop > 2048:
+            # the address space of a type 1 tag ends with segment 15
+            raise Type1TagCommandError(RESPONSE_ERROR)
+
         if len(self) < 120:
             read_all_data_response = self._tag.read_all()
+            if len(read_all_data_response) < 2:
+                raise Type1TagCommandError(RESPONSE_ERROR)
             self._header_rom = read_all_data_response[0:2]
             self._data_from_tag[0:] = read_all_data_response[2:]
             self._data_in_cache[0:] = self._data_from_tag[0:]
 
         if stop > 120 and len(self) < 128:
             read_block_response = self._tag.read_block(15)
+            if len(read_block_response) != 8:
+                raise Type1TagCommandError(RESPONSE_ERROR)
             self._data_from_tag[120:128] = read_block_response
             self._data_in_cache[120:128] = read_block_response
 
